@@ -11,7 +11,9 @@ package server
 // operations is the behaviour's, per server.
 
 import (
+	"bytes"
 	"fmt"
+	"io"
 	"os"
 	"path/filepath"
 	"runtime"
@@ -195,6 +197,56 @@ func (r *v12FSMRun) step(id int, step map[string]interface{}) v12Event {
 			}
 		}
 		r.release(p)
+	case "Restore":
+		// server v takes a snapshot (Server.Snapshot, fsmSnapshot.Persist), stops, and a
+		// new Server over the same directory restores it (Server.Restore) and finishes
+		// recovery (finishedRecovery, as Server.Apply does at the last replayed entry)
+		v := vStr(step, "srv")
+		args["srv"] = v
+		obs.Srv = v
+		if len(r.pend[v]) > 0 || r.srv[v].metadata.GetConsumerGroup(v12GroupID) == nil {
+			obs.A, a = "Skip", "Skip"
+			break
+		}
+		func() {
+			defer func() {
+				if p := recover(); p != nil {
+					obs.Err = fmt.Sprintf("panic:%v", p)
+				}
+			}()
+			fs, err := r.srv[v].Snapshot()
+			if err != nil {
+				panic(err)
+			}
+			sink := &v06Sink{}
+			if err := fs.Persist(sink); err != nil {
+				panic(err)
+			}
+			ms := &proto.MetadataSnapshot{}
+			if err := ms.Unmarshal(sink.Bytes()[4:]); err != nil {
+				panic(err)
+			}
+			order := []string{}
+			for _, g := range ms.Groups {
+				if g.Id == v12GroupID {
+					for _, m := range g.Members {
+						order = append(order, m.Id)
+					}
+				}
+			}
+			args["order"] = order
+			v06Close(r.srv[v])
+			r.srv[v] = v06NewServer(v, r.dirs[v])
+			if err := r.srv[v].Restore(io.NopCloser(bytes.NewReader(sink.Bytes()))); err != nil {
+				obs.Err = "other:" + err.Error()
+				return
+			}
+			r.srv[v].goroutineWait.Wait()
+			if _, _, err := r.srv[v].finishedRecovery(r.idx); err != nil {
+				obs.Err = "other:" + err.Error()
+			}
+			r.srv[v].goroutineWait.Wait()
+		}()
 	case "GetAssignments":
 		v, c, d := vStr(step, "srv"), vStr(step, "c"), uint64(vInt(step, "d"))
 		obs.Srv = v
